@@ -323,6 +323,10 @@ func clauseAtom(a *Node) clause.Expression {
 		return clause.Lt{Column: col, Value: a.Val}
 	case ">":
 		return clause.Gt{Column: col, Value: a.Val}
+	case "<=":
+		return clause.Lte{Column: col, Value: a.Val}
+	case ">=":
+		return clause.Gte{Column: col, Value: a.Val}
 	case "LIKE":
 		return clause.Like{Column: col, Value: a.Val}
 	case "ISNULL":
@@ -553,8 +557,44 @@ func membersOf(n *Node) []*Node {
 	return []*Node{n}
 }
 
+// MultiUnit: several condition values handed to ONE Where / Or / inline call, e.g.
+// db.Where(db.Where(a).Or(b), db.Where(c).Or(d)) or db.Find(&x, clause.Eq{..}, db.Where(a).Or(b)):
+// every argument is a unit of its own and the call means their AND. Not is not generated for it.
+func MultiUnit(r *core.Rand, st Style) *Unit {
+	n := r.Range(2, 3)
+	ms := make([]*Unit, n)
+	descs := make([]string, n)
+	pos := make([]*Node, n)
+	canon := true
+	for i := range ms {
+		switch r.Intn(4) {
+		case 0:
+			ms[i] = ClauseUnit(r, 1)
+		case 1:
+			ms[i] = MapUnit(r)
+		default:
+			ms[i] = GroupUnit(r, st)
+		}
+		descs[i] = ms[i].Desc
+		pos[i] = ms[i].Pos
+		canon = canon && ms[i].Canon
+	}
+	return &Unit{Form: "multi", Desc: "multi[" + strings.Join(descs, " , ") + "]", Pos: AndOf(pos...), Canon: canon,
+		Query: func(root *gorm.DB) (interface{}, []interface{}) {
+			var all []interface{}
+			for _, m := range ms {
+				q, _ := m.Query(root)
+				all = append(all, q)
+			}
+			return all[0], all[1:]
+		}}
+}
+
 // RandUnit picks a form.
 func RandUnit(r *core.Rand, st Style) *Unit {
+	if r.Chance(1, 12) {
+		return MultiUnit(r, st)
+	}
 	switch r.Intn(10) {
 	case 0, 1, 2:
 		return RawUnit(r, RandTree(r, r.Range(0, 3)), st, false)
